@@ -186,9 +186,13 @@ class FnCtx:
                 if ar is not None:
                     return ar
                 # tuple(d - 1 for d in self._spatial_dims) and similar shifted attribute tuples
+                g = None
                 if isinstance(node, ast.Call) and ast.unparse(node.func) in ("tuple", "list") and node.args \
-                        and isinstance(node.args[0], ast.GeneratorExp) and len(node.args[0].generators) == 1:
+                        and isinstance(node.args[0], (ast.GeneratorExp, ast.ListComp)) and len(node.args[0].generators) == 1:
                     g = node.args[0]
+                elif isinstance(node, ast.ListComp) and len(node.generators) == 1:
+                    g = node
+                if g is not None and not g.generators[0].ifs:
                     kk, base = self.axes(g.generators[0].iter, depth + 1)
                     var = g.generators[0].target
                     if kk == 0 and isinstance(var, ast.Name):
